@@ -456,15 +456,28 @@ func readPlan(prop string) (*Plan, error) {
 // readHints: per obligation, the ladder rungs that discharged it when the ledger was written
 // (tried first; any `unsat` counts, so a stale hint costs time only).
 func readHints(prop string) map[string][]string {
-	data, err := os.ReadFile(filepath.Join(verifDir, "ledger", prop+".json"))
-	if err != nil {
-		return nil
+	out := map[string][]string{}
+	files, _ := filepath.Glob(filepath.Join(verifDir, "ledger", "*.json"))
+	sort.Strings(files)
+	// obligation names are structural, so a rung remembered under another property helps here too;
+	// this property's own ledger wins
+	own := filepath.Join(verifDir, "ledger", prop+".json")
+	for _, f := range append(files, own) {
+		data, err := os.ReadFile(f)
+		if err != nil {
+			continue
+		}
+		var l struct {
+			Hints map[string][]string `json:"hints"`
+		}
+		if json.Unmarshal(data, &l) != nil {
+			continue
+		}
+		for k, v := range l.Hints {
+			out[k] = v
+		}
 	}
-	var l struct {
-		Hints map[string][]string `json:"hints"`
-	}
-	json.Unmarshal(data, &l)
-	return l.Hints
+	return out
 }
 
 func readLedger(prop string) []string {
